@@ -18,6 +18,15 @@ var universalSinks = map[string]string{
 	"prefilter.WrapLineAnchor": "every match begins at a (?m)^ position: the wrapper rejects every candidate that is not at a line start",
 }
 
+// universalArgSinks: boolean arguments that make a callee skip a verification for EVERY candidate; the
+// argument must be computed from a universal predicate (conjunctions allowed).
+var universalArgSinks = map[string]struct {
+	arg int
+	why string
+}{
+	"meta.NewReverseSuffixSetSearcher": {3, "matchStartZero: a suffix occurrence is taken for a match from the line start without a reverse scan, which is right only if EVERY element after the leading .* is a literal"},
+}
+
 // universalPredicates finds bool functions over *syntax.Regexp that quantify universally over the children of a node:
 // a loop `for _, sub := range x.Sub { if !f(sub) { return false } }` with f the function itself.
 func universalPredicates(p *core.Prog) map[*types.Func]bool {
@@ -57,7 +66,11 @@ func universalPredicates(p *core.Prog) map[*types.Func]bool {
 					if !ok {
 						return true
 					}
-					sel, ok := rs.X.(*ast.SelectorExpr)
+					rx := rs.X
+					if sl, ok := rx.(*ast.SliceExpr); ok {
+						rx = sl.X // range over x.Sub[k:]: every element after a fixed head
+					}
+					sel, ok := rx.(*ast.SelectorExpr)
 					if !ok || sel.Sel.Name != "Sub" {
 						return true
 					}
@@ -71,8 +84,16 @@ func universalPredicates(p *core.Prog) map[*types.Func]bool {
 							continue
 						}
 						call, ok := un.X.(*ast.CallExpr)
-						if !ok || calleeObj(pk, call) != obj {
+						if !ok {
 							continue
+						}
+						// the element predicate: the function itself (recursive quantification) or another
+						// module predicate over a sub-expression
+						if co := calleeObj(pk, call); co != obj {
+							cf, isF := co.(*types.Func)
+							if !isF || cf.Pkg() == nil || !strings.HasPrefix(cf.Pkg().Path(), core.ModPath) {
+								continue
+							}
 						}
 						if len(ifs.Body.List) == 1 {
 							if r, ok := ifs.Body.List[0].(*ast.ReturnStmt); ok && len(r.Results) == 1 && isIdentNamed(r.Results[0], "false") {
@@ -91,8 +112,8 @@ func universalPredicates(p *core.Prog) map[*types.Func]bool {
 func init() {
 	core.Register(&core.Rule{
 		Name: "R-UNIVGUARD",
-		Doc: "A rewrite that checks a condition for every candidate needs a universal guard: every call of prefilter.WrapLineAnchor (the wrapper rejects each literal candidate that is not at a line start) must be dominated by the true edge of a predicate over the pattern that quantifies over ALL alternatives (a bool function over *syntax.Regexp with `for _, sub := range re.Sub { if !f(sub) { return false } }`). An existential detector ('the pattern contains (?m)^ somewhere') is not enough: for (?m)^foo|bar the branch bar matches anywhere, and the wrapper silently drops those matches. Necessary for C16 (complete prefilters report exactly the matches) and C01/C02.",
-		Min: 1, NeedSSA: true,
+		Doc: "A rewrite that checks a condition for every candidate needs a universal guard: every call of prefilter.WrapLineAnchor (the wrapper rejects each literal candidate that is not at a line start) must be dominated by the true edge of a predicate over the pattern that quantifies over ALL alternatives (a bool function over *syntax.Regexp with `for _, sub := range re.Sub { if !f(sub) { return false } }`). An existential detector ('the pattern contains (?m)^ somewhere') is not enough: for (?m)^foo|bar the branch bar matches anywhere, and the wrapper silently drops those matches. The same holds for a boolean argument that makes a searcher skip a verification for every candidate (the matchStartZero flag of the reverse suffix set searcher: .*[a-z]+\\.(txt|log) must not be told that a suffix occurrence is a match): the argument is computed from a universal predicate. Necessary for C16 (complete prefilters report exactly the matches) and C01/C02.",
+		Min: 2, NeedSSA: true,
 		Run: func(p *core.Prog) *core.RuleResult {
 			res := &core.RuleResult{}
 			univ := universalPredicates(p)
@@ -116,6 +137,53 @@ func init() {
 						cal := c.Call.StaticCallee()
 						if cal == nil || cal.Pkg == nil {
 							continue
+						}
+						if as, ok := universalArgSinks[cal.Pkg.Pkg.Name()+"."+cal.Name()]; ok && as.arg < len(c.Call.Args) {
+							o := core.Obligation{Key: kc.Key("R-UNIVGUARD", core.FuncName(fn), "argument of "+cal.Name()+" computed from a universal predicate"), Pos: p.Pos(c.Pos()), Nontrivial: true}
+							found := ""
+							seen := map[ssa.Value]bool{}
+							var walk func(v ssa.Value, d int)
+							walk = func(v ssa.Value, d int) {
+								if v == nil || d > 8 || seen[v] || found != "" {
+									return
+								}
+								seen[v] = true
+								switch x := v.(type) {
+								case *ssa.Call:
+									if f := x.Call.StaticCallee(); f != nil {
+										if obj, _ := f.Object().(*types.Func); obj != nil && univ[obj] {
+											found = f.Name()
+										}
+									}
+								case *ssa.BinOp:
+									walk(x.X, d+1)
+									walk(x.Y, d+1)
+								case *ssa.UnOp:
+									walk(x.X, d+1)
+								case *ssa.Phi:
+									// a && b: the phi merges the constant false with the later operand; every
+									// predecessor's branch condition is part of the conjunction
+									for _, e := range x.Edges {
+										walk(e, d+1)
+									}
+									for _, pred := range x.Block().Preds {
+										if len(pred.Instrs) > 0 {
+											if iff, ok := pred.Instrs[len(pred.Instrs)-1].(*ssa.If); ok {
+												walk(iff.Cond, d+1)
+											}
+										}
+									}
+								}
+							}
+							walk(c.Call.Args[as.arg], 0)
+							if found != "" {
+								o.Status = core.Discharged
+								o.Detail = "the argument is a conjunction that includes the universal predicate " + found
+							} else {
+								o.Status = core.Violated
+								o.Detail = "the argument is not computed from a predicate that holds for every element of the pattern (" + as.why + ")"
+							}
+							res.Obligations = append(res.Obligations, o)
 						}
 						why := universalSinks[cal.Pkg.Pkg.Name()+"."+cal.Name()]
 						if why == "" {
